@@ -249,6 +249,16 @@ func (tc *twoChain) restartL2() {
 	tc.logf("L2 genesis export -> import")
 }
 
+// restartL1 exports the L1 (accounts, balances, ophost) and starts a fresh chain from that genesis
+// (through its JSON form) at the same height and time; the new chain replaces tc.l1.
+func (tc *twoChain) restartL1() {
+	old := tc.l1
+	var gs ophosttypes.GenesisState
+	old.Enc.Marshaler.MustUnmarshalJSON(old.Enc.Marshaler.MustMarshalJSON(old.K.ExportGenesis(old.Ctx)), &gs)
+	tc.l1 = importL1(old, &gs)
+	tc.logf("L1 genesis export -> import")
+}
+
 // neighbourChallenge is ordinary life on another bridge of the same L1: its proposer submits two
 // outputs and its challenger deletes one of them (from index `from`, 1 = everything pending).
 // None of it may touch our bridge. It reports what happened for the log.
